@@ -1282,10 +1282,48 @@ func mapKeysOf(p *an.Prog, x ssa.Value) ssa.Value {
 		return c.Args[0]
 	}
 	callee := c.StaticCallee()
-	if !returnsKeyListOf(p, callee) {
+	if !returnsKeyListOf(p, callee) && !returnsEntryListOf(p, callee) {
 		return nil
 	}
 	return c.Args[0]
+}
+
+// returnsEntryListOf: fn hands back one element per entry of the map that is its first parameter: it walks
+// Params[0].MapRange(), appends exactly once per step to one slice, sorts that slice and returns it.
+func returnsEntryListOf(p *an.Prog, fn *ssa.Function) bool {
+	if fn == nil || fn.Blocks == nil || !p.InModule(fn) || len(fn.Params) == 0 || fn.Signature.Results().Len() != 1 {
+		return false
+	}
+	its := callsNamed(fn, "(reflect.Value).MapRange")
+	if len(its) != 1 || its[0].Call.Args[0] != ssa.Value(fn.Params[0]) || !mapRangeCollectedAndSorted(fn, its[0]) {
+		return false
+	}
+	// one append, in the loop that Next() drives
+	var appends []*ssa.Call
+	an.EachInstr(fn, func(in ssa.Instruction) {
+		if c, ok := in.(*ssa.Call); ok {
+			if b, isB := c.Call.Value.(*ssa.Builtin); isB && b.Name() == "append" {
+				appends = append(appends, c)
+			}
+		}
+	})
+	if len(appends) != 1 || !reachesBlock(appends[0].Block(), appends[0].Block()) {
+		return false
+	}
+	nexts := callsNamed(fn, "(*reflect.MapIter).Next")
+	if len(nexts) != 1 || !an.AllPathsGuarded(appends[0].Block(), func(cond ssa.Value, taken bool) bool { return taken && cond == ssa.Value(nexts[0]) }) {
+		return false
+	}
+	// every return hands back the accumulated slice
+	ok := true
+	an.EachInstr(fn, func(in ssa.Instruction) {
+		if ret, isRet := in.(*ssa.Return); isRet {
+			if !an.Reaches(resultsOf(ret)[0], an.StepValue, func(v ssa.Value) bool { return v == ssa.Value(appends[0]) }) {
+				ok = false
+			}
+		}
+	})
+	return ok
 }
 
 // positiveLen: v is len(x.f) for a field f that is only ever assigned non-empty values (P10's invariant).
@@ -1344,11 +1382,13 @@ func sliceFuncContract(fn *ssa.Function, base, idx ssa.Value) bool {
 		if x == cell {
 			found = true
 		}
-		if al, ok := cell.(*ssa.Alloc); ok && len(an.Stores(al)) == 1 {
+		if al, ok := cell.(*ssa.Alloc); ok {
+			// the slice handed to sort is the current value of the very variable the comparator indexes (the
+			// comparator runs during the sort and does not assign the variable: checked above)
 			if u, ok := x.(*ssa.UnOp); ok && u.Op == token.MUL && u.X == cell {
 				found = true
 			}
-			if x == an.Stores(al)[0] {
+			if st := an.Stores(al); len(st) == 1 && x == st[0] {
 				found = true // the load was already resolved to the one value ever stored
 			}
 		}
